@@ -176,9 +176,13 @@ func (dc *DomConverter) visitElementNodeHandler(node *html.Node) bool {
 			return false
 		}
 
-		role := dom.GetAttribute(node, "role")
-		if _, isUnlikely := unlikelyRoles[role]; isUnlikely {
-			return false
+		// The value of role is a list of tokens separated by white space, in any
+		// letter case; the first token is the role, the others are fallbacks.
+		for _, role := range strings.Fields(strings.ToLower(dom.GetAttribute(node, "role"))) {
+			if _, isUnlikely := unlikelyRoles[role]; isUnlikely {
+				return false
+			}
+			break
 		}
 	}
 
